@@ -124,6 +124,8 @@ func thorough(c *Ctx) {
 	}
 	// 4. sensitivity matrix
 	c.Extra["mutants"] = runMutantMatrix(c)
+	// 4b. the confirmed seeded changes for this property (seeded/<id>/patch.diff), applied to scratch copies
+	c.Extra["seeded_changes"] = runSeededMatrix(c)
 	// 5. cross-reference tools (counts only; nothing they report decides a property)
 	c.Extra["cross_reference"] = crossReference(c)
 }
@@ -296,6 +298,81 @@ func runMutantMatrix(c *Ctx) map[string]interface{} {
 		list = append(list, r.id+": "+r.status+" "+r.detail)
 	}
 	out["applied"] = len(mine)
+	out["counts"] = counts
+	out["results"] = list
+	return out
+}
+
+// runSeededMatrix: every confirmed property-breaking change stored under
+// seeded/ for this property is applied to a scratch copy of the tree under
+// analysis (outside /repo and /verif, removed afterwards) and the quick check
+// is run on the copy; it must report a violation.  A patch that no longer
+// applies to the tree (the tree has moved on) is counted as inapplicable.
+// This exercises the checker, not the tree: survivors are evidence, not violations.
+func runSeededMatrix(c *Ctx) map[string]interface{} {
+	out := map[string]interface{}{}
+	dirs, _ := filepath.Glob(filepath.Join(c.Verifdir, "seeded", c.Property+"-*"))
+	sort.Strings(dirs)
+	self, err := os.Executable()
+	if err != nil || len(dirs) == 0 {
+		out["applied"] = 0
+		return out
+	}
+	type res struct{ id, status, detail string }
+	results := make([]res, len(dirs))
+	sem := make(chan struct{}, 4)
+	var wg sync.WaitGroup
+	for i, d := range dirs {
+		wg.Add(1)
+		go func(i int, d string) {
+			defer wg.Done()
+			sem <- struct{}{}
+			defer func() { <-sem }()
+			id := filepath.Base(d)
+			tmp, err := os.MkdirTemp("", "verif-seed-")
+			if err != nil {
+				results[i] = res{id, "error", err.Error()}
+				return
+			}
+			defer os.RemoveAll(tmp)
+			tree := filepath.Join(tmp, "tree")
+			// copy the working tree without its git metadata
+			cp := exec.Command("rsync", "-a", "--exclude", ".git", c.P.Repo+"/", tree+"/")
+			if b, err := cp.CombinedOutput(); err != nil {
+				results[i] = res{id, "error", "copy: " + string(b)}
+				return
+			}
+			ap := exec.Command("git", "apply", "--whitespace=nowarn", filepath.Join(d, "patch.diff"))
+			ap.Dir = tree
+			if _, err := ap.CombinedOutput(); err != nil {
+				results[i] = res{id, "inapplicable", "patch does not apply to this tree"}
+				return
+			}
+			ev := filepath.Join(tmp, "ev")
+			cmd := exec.Command(self, "-property", c.Property, "-tier", "quick", "-repo", tree, "-verif", c.Verifdir)
+			cmd.Env = append(os.Environ(), "VERIF_OUT="+ev)
+			var buf bytes.Buffer
+			cmd.Stdout, cmd.Stderr = &buf, &buf
+			rerr := cmd.Run()
+			o := buf.String()
+			switch {
+			case strings.Contains(o, "package errors") || strings.Contains(o, "error: load"):
+				results[i] = res{id, "inapplicable", "variant does not load"}
+			case rerr != nil:
+				results[i] = res{id, "caught", firstViolationKey(o)}
+			default:
+				results[i] = res{id, "missed", ""}
+			}
+		}(i, d)
+	}
+	wg.Wait()
+	counts := map[string]int{}
+	var list []string
+	for _, r := range results {
+		counts[r.status]++
+		list = append(list, r.id+": "+r.status+" "+r.detail)
+	}
+	out["applied"] = len(dirs)
 	out["counts"] = counts
 	out["results"] = list
 	return out
